@@ -415,6 +415,33 @@ def rule_r6_processor_reaches_key(ck, prog, rule='C08.R6', cls='sdk::metrics::Sy
     return cnt
 
 
+def rule_r7_bulk(ck, prog, rule='C08.R7', classes=('sdk::common::AttributeMap', 'sdk::common::OrderedAttributeMap')):
+    """who-may-write: besides the setters, no member (constructors and their copy callbacks included) stores into the attribute map
+    with a non-overwriting call - a bulk path using emplace/insert makes duplicate keys of one attribute list first-write-wins"""
+    cnt = 0
+    for cls in classes:
+        rec = prog.record(cls)
+        hosts = [f for f in prog.funcs.values() if f.cls == rec['qn'] or (f.d.get('lambda') and (f.d.get('parent') or '').startswith(rec['qn'] + '::'))]
+        bad = None
+        for f in hosts:
+            for n in f.nodes:
+                if n['k'] == 'call' and strip_targs(n.get('c', '')).rsplit('::', 1)[-1] in NON_OVERWRITING and 'map' in strip_targs(n.get('c', '')) and \
+                        (n.get('obj') is None or access_path(f, n['obj'])[:1] == ('this',) or f.nodes[n['obj']]['k'] in ('this', 'cast')):
+                    bad = (f, n)
+        cnt += 1
+        site = 'no-first-write-wins-store:%s' % cls.rsplit('::', 1)[-1]
+        if bad:
+            ck.violation(rule, bad[0], site, bad[1], '%s stores into the attribute map with %s, which keeps an existing entry: a key given twice in one attribute list (event, link, resource) resolves first-wins' %
+                         (short(bad[0]), strip_targs(bad[1]['c']).rsplit('::', 1)[-1]))
+        else:
+            class _F:
+                qn = rec['qn']
+                def loc(self, n=None):
+                    return '%s:%d' % (rec['file'].replace('/repo/', ''), rec['line'])
+            ck.holds(rule, _F(), site, None, 'every store of the class goes through an overwriting call')
+    return cnt
+
+
 def rule_r7(ck, prog, rule='C08.R7', setters=('sdk::common::OrderedAttributeMap::SetAttribute', 'sdk::common::AttributeMap::SetAttribute')):
     cnt = 0
     for s in setters:
@@ -443,7 +470,7 @@ def run(ck, prog):
     ck.doc('C08.R4', 'overflow guard arithmetic; lookup miss -> overflow test -> insertion in every GetOrSetDefault', 5)
     ck.doc('C08.R5', 'a value stored under the shared overflow key is merged, not replaced', 2)
     ck.doc('C08.R6', 'filter gates insertion; filter key lookups use the full view; the storage\'s processor reaches every key built from caller attributes', 6)
-    ck.doc('C08.R7', 'attribute setters store last-write-wins', 2)
+    ck.doc('C08.R7', 'attribute setters store last-write-wins; no other member stores with a non-overwriting call', 4)
     with ck.canary('C08.R2'):
         rule_r2(ck, prog, cls='canary::c08::BadKey')
     with ck.canary('C08.R7'):
@@ -457,4 +484,5 @@ def run(ck, prog):
     rule_r6(ck, prog)
     rule_r6_processor_reaches_key(ck, prog)
     rule_r7(ck, prog)
+    rule_r7_bulk(ck, prog)
     return {}
